@@ -922,7 +922,10 @@ def lib_argsort(ev, args, kw, st, node):
     a, b = z3.Int(fresh_name("a")), z3.Int(fresh_name("b"))
     st.pc.append(z3.ForAll([a, b], z3.Implies(z3.And(a >= 0, a < b, b < n),
                                                as_num(v.at(P[a])).t <= as_num(v.at(P[b])).t)))
-    return Seq(n, z3.IntVal(0), [P], INT, "array")
+    res = Seq(n, z3.IntVal(0), [P], INT, "array")
+    if not ev.spec:
+        st.env["_last_argsort"] = res          # ghost name for the (usually anonymous) permutation, usable in proof steps
+    return res
 
 
 # =============================================================================== masks, dicts, comprehensions
